@@ -230,7 +230,7 @@ def main(mod, argv):
             ctx['driver'] = B.build_driver()
             # proofs of this property
             theorems = list(mod.THEOREMS)
-            aud, audlog = B.audit(theorems, pid) if not a.replay else ({}, '')
+            aud, audlog = B.audit(theorems, pid, getattr(mod, 'LEAN_MODULES', ['NixModel.Props.' + pid])) if not a.replay else ({}, '')
             hyg = B.hygiene() if not a.replay else []
             ctx['build_s'] = time.time() - tb
     except B.BuildError as e:
